@@ -33,6 +33,7 @@ RUN_PROFILES = {
     "react_junk": dict(react=0.25, junk=0.3, w={"parallel": 3}),
     "react_all": dict(react=0.3, react_all=True, imm=0.1, w={"parallel": 3, "call": 3}),
     "observers": dict(observers=0.35, imm=0.0),
+    "observers_loops": dict(observers=0.35, imm=0.0, w={"count": 3, "while": 2, "cond": 2}),
     "listeners": dict(listeners=0.4, imm=0.0),
 }
 
@@ -66,8 +67,8 @@ PROPS = {
     "C15": dict(kind="run", proj="P_C15", mon="mon_true",
                 profiles=["params", "hostile_append", "hostile_clear", "hostile_replace"],
                 quick=240, thorough=6000, finding_profiles=["parloop_all"]),
-    "C17": dict(kind="run", proj="P_C17", mon="mon_C17",
-                profiles=["observers"], quick=200, thorough=5000),
+    "C17": dict(kind="run", proj="P_C17", mon="mon_C17", py_monitor="petri_net_notices",
+                profiles=["observers", "observers_loops"], quick=200, thorough=5000),
     "C20": dict(kind="run", proj="P_C20", mon="mon_C20",
                 profiles=["listeners"], quick=200, thorough=5000),
     # C13: expressions in isolation (kind expr) + guards evaluated repeatedly in running orders
